@@ -725,6 +725,8 @@ class Every(Query):
         if fieldname in (None, "", "*"):
             # This takes into account deletions
             doclist = array("I", reader.all_doc_ids())
+        elif fieldname not in searcher.schema:
+            return matching.NullMatcher()
         else:
             # This is a hacky hack, but just create an in-memory set of all the
             # document numbers of every term in the field. This is SLOOOW for
